@@ -5,6 +5,7 @@ package main
 type classIn struct {
 	Name       string `json:"name"`
 	Controller string `json:"controller"`
+	V          string `json:"v,omitempty"` // API version, "" = the cluster's
 }
 
 type exprIn struct {
@@ -33,11 +34,18 @@ type allowedIn struct {
 	Namespaces *routeNsIn `json:"namespaces"`
 }
 
+// tlsIn is the listener's tls block: mode (nil-able) and the names of the certificateRefs.
+type tlsIn struct {
+	Mode  *string  `json:"mode"`
+	Certs []string `json:"certs"`
+}
+
 type listenerIn struct {
 	Name     string     `json:"name"`
 	Hostname *string    `json:"hostname"`
 	Port     int        `json:"port"`
 	Protocol string     `json:"protocol"`
+	TLS      *tlsIn     `json:"tls,omitempty"`
 	Allowed  *allowedIn `json:"allowed"`
 }
 
@@ -46,6 +54,7 @@ type gatewayIn struct {
 	Name      string       `json:"name"`
 	Class     string       `json:"class"`
 	Listeners []listenerIn `json:"listeners"`
+	V         string       `json:"v,omitempty"`
 }
 
 type parentIn struct {
@@ -91,6 +100,7 @@ type routeIn struct {
 	Parents   []parentIn `json:"parents"`
 	Hostnames []string   `json:"hostnames"`
 	Rules     []ruleIn   `json:"rules"`
+	V         string     `json:"v,omitempty"` // HTTPRoute only; a TCPRoute is always v1alpha2
 }
 
 type svcPortIn struct {
@@ -125,7 +135,15 @@ type nsIn struct {
 // clusterIn is one input. Stamp: the client fills TypeMeta like the informer cache of
 // controller-runtime does. Malformed: holds values the API server would reject (empty sectionName,
 // duplicate listener names, unknown selector operators...): correspondence only, no oracle.
+//
+// Version: the Gateway API version ("v1", "v1beta1", "v1alpha2"; "" = "v1") in which GatewayClass,
+// Gateway and HTTPRoute objects are declared unless they carry their own V. Enabled: the versions
+// the controller reads (converters.Sync runs one gateway sync per enabled version, in the order
+// v1, v1beta1, v1alpha2); empty = only Version. With the fake client an object exists in its
+// declared version only (a real API server serves every object in all versions).
 type clusterIn struct {
+	Version    string      `json:"version,omitempty"`
+	Enabled    []string    `json:"enabled,omitempty"`
 	Controller string      `json:"controller"`
 	Stamp      bool        `json:"stamp"`
 	Malformed  bool        `json:"malformed"`
